@@ -26,7 +26,10 @@ COMPONENTS = {
                       "std::sync::RwLock -> readers/writer exclusion, acquisition is a scheduling point (s4_verif_rt::sync)",
                       "std::thread spawn/OS scheduler -> baton scheduler, seeded policies (s4_verif_rt::sched)",
                       "ctrlc + kernel signal delivery -> handler closure run by a simulated thread at a planned step",
-                      "wall clock -> plan `now=`; local zone -> TZ; getrandom(2) -> LD_PRELOAD shim seeded by the plan"],
+                      "wall clock -> plan `now=`; local zone -> TZ; getrandom(2) -> LD_PRELOAD shim seeded by the plan",
+                      "write(2)/writev(2)/read(2) -> the same LD_PRELOAD shim: short writes on stdout, EPIPE, ENOSPC under TMPDIR, EIO on "
+                      "input reads, armed by the plan (otherwise passed through to the kernel)",
+                      "deadlines of timed channel operations -> simulated (expire by scheduler decision, budgeted per run)"],
     "uncontrolled": ["rayon pools inside jwalk and evtx (confined to one step; assumed order-preserving)"],
 }
 
